@@ -69,7 +69,8 @@ Definition logs_ok (br : broker) (logs : list (tpk * list (Z * Z * Z))) : bool :
 
 (* ---------------------------------------------------------------- (2) transaction manager *)
 
-Inductive top := TStamp (k : tpk) (sq ep : Z) | TBump.
+(* TFlushed: a first-pass message forwarded by flushRetryBuffers (Actors.flush sends the backlog as it is: no stamp) *)
+Inductive top := TStamp (k : tpk) (sq ep : Z) | TBump | TFlushed (id : Z) (hasseq : bool).
 
 Fixpoint txn_replay (t : txn) (ops : list top) : txn * bool :=
   match ops with
@@ -79,6 +80,7 @@ Fixpoint txn_replay (t : txn) (ops : list top) : txn * bool :=
       let '(t2, ok) := txn_replay t' r in
       (t2, (sq =? sq') && (ep =? ep') && ok)
   | TBump :: r => txn_replay (txn_bump t) r
+  | TFlushed _ h :: r => let '(t2, ok) := txn_replay t r in (t2, negb h && ok)
   end.
 
 (* ---------------------------------------------------------------- (3) retryBatch *)
